@@ -1,6 +1,7 @@
 (* C02 -- recorded RAW samples = reference pipeline, whatever the partitioning. *)
 From Coq Require Import List ZArith Lia Bool.
 From SV Require Import Base.PySeq Model.Backend Model.RawLayout Model.PFB Proofs.PFB Proofs.RawLayout.
+From SV Require Import Kernels.Gen02 Proofs.K02.
 Import ListNotations.
 Local Open Scope Z_scope.
 
@@ -67,6 +68,15 @@ Theorem c02_partition_independent : forall (A Row : Type) (fir : list A -> Row) 
   PFB.run A Row fir taps nb None (split sizes1 xs) = PFB.run A Row fir taps nb None (split sizes2 xs).
 Proof. exact partition_independent. Qed.
 Print Assumptions c02_partition_independent.
+
+(* the sub-block plan expressions of the CURRENT source (Kernels/Gen02.v, regenerated on every run): W - 1, subblock_T and the recomputed
+   num_subblocks are the model's ws_of, taps * ws_of and nsub_eff, for a block of w whole PFB windows *)
+Theorem c02_source_plan : forall taps w nsub, 1 <= taps -> 1 <= w -> 1 <= nsub ->
+  src_windows_per_subblock (taps * w) taps nsub = ws_of w nsub + 1 /\
+  src_subblock_T (ws_of w nsub + 1) taps = taps * ws_of w nsub /\
+  src_num_subblocks (taps * w) (taps * ws_of w nsub) = nsub_eff w nsub.
+Proof. exact k02_plan. Qed.
+Print Assumptions c02_source_plan.
 
 Example c02_example :
   let c := {| nants := 2; npols := 2; nbits := 4; nchans := 3; taps := 2; nb := 8; block_size := 2*3*2*10; blocks_per_file := 2 |} in
